@@ -12,30 +12,18 @@ PROD_NOTE = ('Lean kernel + axioms propext/Classical.choice/Quot.sound; hand-wri
 TM_NOTE = ('Lean kernel + axioms propext/Classical.choice/Quot.sound; hand-written model (lean/EaModel/Tasks.lean) of the managers on an asyncio ready-queue model, '
            'tied to /repo by running the real managers on a real asyncio loop with instrumented coroutines on the same operation lists; asyncio itself is modelled, not verified')
 CHECKS = {
- 'C01': ('proof', 'Theorems (for every finite history of operations, every environment): queue invariant of every reachable state '
-         '(only RUNNING jobs queued, no duplicates, sorted, RUNNING <-> run time set) and never-early (every recorded execution has '
-         'due <= instant). Tied to the code by comparing model and real scheduler on seeded histories under a virtual clock; an '
-         'independent oracle states never-early / on-time / no-overdue on the real trace.', '8 C01', SCHED_NOTE,
-         'Lean 4 invariant proof (induction over operation lists, mutual recursion on fuel) + differential correspondence'),
- 'C02': ('proof', 'Theorems: only RUNNING jobs are queued and each at most once in every reachable state; jobs that are not RUNNING '
-         'are not queued; refused creations (duplicate id, bad argument) change nothing; after any failed creation the job is not queued. '
-         'Correspondence on seeded histories; oracle: at most one execution per announced run time, none while paused/cancelled/disabled, '
-         'none for failed creations.', '8 C02', SCHED_NOTE, 'Lean 4 invariant proof + differential correspondence'),
- 'C07': ('proof', 'Theorems: RUNNING <-> run time set in every reachable state; every control operation on a FINISHED job raises and leaves '
-         'the state unchanged; JobCallbackHandler.run invokes every registered callback exactly once in order with the new state '
-         'visible; set_next_run reports the new state to the on_update callbacks. Correspondence incl. callback log, store content.',
-         '8 C07', SCHED_NOTE, 'Lean 4 invariant proof + trace lemma on callbacks + differential correspondence'),
- 'C08': ('proof', 'Theorems (step level): reset announces now + countdown and is never rejected for a positive countdown; a fired countdown '
-         'is paused with no run time; a one-shot job finishes with its execution; no job is queued twice. End-to-end timing is decided by the '
-         'correspondence plus a three-line reference model of the countdown evaluated on the real trace.', '8 C08', SCHED_NOTE,
-         'Lean 4 step lemmas + differential correspondence + reference-model oracle'),
- 'C09': ('proof', 'Theorems: the queue is sorted by run time, duplicate-free and free of jobs without run time in every reachable state; insort '
-         'keeps sortedness. run_jobs always takes the head. Correspondence compares the order of executions inside each wake-up.',
-         '8 C09', SCHED_NOTE, 'Lean 4 invariant proof + differential correspondence'),
- 'C10': ('proof', 'Theorems: callbacks change nothing but the log; a wake-up keeps the scheduler invariant whatever raises; a failed '
-         'reschedule never leaves the job RUNNING with the run time it was just executed for. Correspondence with injected failures in '
-         'callables (call-time and await-time), callbacks and triggers; oracle: one handler report per failing invocation, behaviour '
-         'identical to the failure-free history.', '8 C10', SCHED_NOTE, 'Lean 4 proof + differential correspondence + failure-free differential oracle'),
+ 'C01': ('proof', 'Theorems for every state reachable by any finite history of operations (every environment, failure injection and start instant): queue invariant (only RUNNING jobs queued, no duplicates, sorted, RUNNING <-> run time set); never early (every recorded execution has due <= instant); the loop timer is armed exactly when enabled and the queue is not empty, for the run time of the head; after a wake-up or sleep no queued job is due; a queued job whose run time is reached is executed by that very wake-up; under the virtual clock a sleeping loop executes each job exactly at its run time. The theorems exclude histories in which the recursion budget of the model (400 nested wake-ups in one operation) ran out. Tied to the code by comparing model and real scheduler on seeded histories under a virtual clock; an independent oracle states never-early / on-time / no-overdue on the real trace.', '8 C01', SCHED_NOTE,
+         'Lean 4 invariant proofs (induction over operation lists, strong induction on the fuel of the mutual recursion, contracts for _set_timer) + differential correspondence'),
+ 'C02': ('proof', 'Theorems for every reachable state: only RUNNING jobs are queued, each at most once; a job that is not RUNNING (cancelled, paused, stopped, finished, never created) is neither executed nor queued by any sequence of operations that does not contain its own resume/reset/creation; while the scheduler is disabled no operation but enable(True) executes anything; a control operation on one job leaves every other queued job queued for the same instant (or executed it because it was already due); refused creations change nothing and failed creations leave the job unqueued; in every history in which the clock does not go back the run times a job was executed for are strictly increasing (at most one execution per announced run time) and below the run time it reports. Oracle on the real trace: at most one execution per announced run time, none while paused/cancelled/disabled.', '8 C02', SCHED_NOTE,
+         'Lean 4 invariant + generic "quiet step" proofs + differential correspondence'),
+ 'C07': ('proof', 'Theorems: RUNNING <-> run time set in every reachable state; every control operation on a FINISHED job raises and leaves the state unchanged; the whole record of a job that is not RUNNING is unchanged by any number of operations that do not address it (wake-ups, sleeps, other jobs); JobCallbackHandler.run invokes every registered callback exactly once in order with the new state visible; set_next_run reports the new state to the on_update callbacks. Store exactness is decided by the correspondence (callback log, store content).', '8 C07', SCHED_NOTE,
+         'Lean 4 invariant + frame proofs + trace lemma on callbacks + differential correspondence'),
+ 'C08': ('proof', 'Theorems for every reachable state: once(t) for a future t succeeds, reports t, and a sleep past t executes the job at exactly t; reset() of a countdown job reports now + countdown and a sleep past it executes the job at exactly that instant; a fired countdown is paused with no run time; a one-shot job finishes with its execution; a job that is not RUNNING is never executed without its own reset/resume (C02) and its record is frozen (C07). Histories with interleaved resets/stops are decided by the correspondence plus a three-line reference model of the countdown evaluated on the real trace.', '8 C08', SCHED_NOTE,
+         'Lean 4 proofs over reachable states + differential correspondence + reference-model oracle'),
+ 'C09': ('proof', 'Theorems for every reachable state: the executions performed by a wake-up, a sleep or re-enabling are in non-decreasing order of the reported run times, each due no later than the clock, and everything still queued afterwards is due no earlier than any of them (any number of due jobs, whatever they do when run); the queue is sorted, duplicate-free and free of jobs without run time. Correspondence compares the order of executions inside each wake-up.', '8 C09', SCHED_NOTE,
+         'Lean 4 proof (ordering argument over the run loop using C04) + differential correspondence'),
+ 'C10': ('proof', 'Theorems: callbacks change nothing but the log; a wake-up keeps the scheduler invariant whatever raises; a failed reschedule never leaves the job RUNNING with the run time it was just executed for; the C01/C09 theorems (timer stays armed, every due job is executed in the wake-up, in order) hold for every failure injection. Correspondence with injected failures in callables (call-time and await-time), callbacks and triggers; oracle: one handler report per failing invocation, behaviour identical to the failure-free history.', '8 C10', SCHED_NOTE,
+         'Lean 4 proof + differential correspondence + failure-free differential oracle'),
  'C04': ('proof', 'Theorem getNext_gt: for EVERY trigger expression of the model (time, interval, sun over any ephemeris, group, any nesting of '
          'offset/earliest/latest/jitter, any filters), every zone table, draw function and reference instant a computed next occurrence is '
          'strictly later. Tied to the code by comparing model and real producers (built through the builder API) on chains and boundary '
